@@ -637,6 +637,13 @@ pub fn unwrap(family: u8, wk: WrapKind, kind: Kind, text: &str, secret: &[u8], i
     }
 }
 
+/// P + Q on edwards25519 (compressed points) with the reference's provider; None if either is not a point.
+pub fn ed25519_add(p: &[u8], q: &[u8]) -> Option<Vec<u8>> {
+    let p: [u8; 32] = p.try_into().ok()?;
+    let q: [u8; 32] = q.try_into().ok()?;
+    libsodium_rs::crypto_core::ed25519::add(&p, &q).ok().map(|r| r.to_vec())
+}
+
 pub fn ed25519_public_of_seed(seed: &[u8; 32]) -> Option<Vec<u8>> {
     let kp = libsodium_rs::crypto_sign::keypair_from_seed(seed).ok()?;
     Some(kp.public_key.as_bytes().to_vec())
